@@ -314,6 +314,13 @@ class Project(MessageHandler):
         return 60 * 60
 
     def schedule(self) -> bool:
+        # A project is scheduled once. Calling schedule() again (the command line
+        # front end does, after the parser already scheduled the project) must not
+        # change anything: tasks that found no room would otherwise be retried on top
+        # of the bookings their first attempt left behind.
+        if getattr(self, "_schedulingDone", False):
+            return True
+
         # Extend project end if tasks require more time
         self._extendProjectEndIfNeeded()
 
@@ -344,6 +351,7 @@ class Project(MessageHandler):
             # Finish
             self.finishScenario(scIdx)
 
+        self._schedulingDone = True
         return True
 
     def prepareScenario(self, scIdx: int) -> None:
